@@ -436,6 +436,37 @@ class World:
             return False
         return self.check(("legacy_reload",))
 
+    def op_wiring(self):
+        """Modules get wired between attachments (single pairs, fan-out, fan-in, operators, disconnects): wiring never moves
+        anything, and the next attachment still takes the lowest empty position."""
+        mods = [m for m in self.p.modules if m is not None]
+        if len(mods) < 2:
+            return True
+        rng = self.rng
+        a = rng.choice(mods)
+        some = rng.sample(mods, min(len(mods), rng.randint(1, 3)))
+        form = rng.choice(("pair", "fan-out", "fan-in", "rshift-list", "lshift-list", "disconnect", "lists"))
+        try:
+            if form == "pair":
+                self.p.connect(a, some[0])
+            elif form == "fan-out":
+                self.p.connect(a, some)
+            elif form == "fan-in":
+                self.p.connect(some, a)
+            elif form == "rshift-list":
+                a >> some
+            elif form == "lshift-list":
+                a << some
+            elif form == "lists":
+                self.p.connect(some, list(reversed(some)))
+            else:
+                self.p.disconnect(a, some[0]) if hasattr(self.p, "disconnect") else self.p.connect(~a, some)
+        except Exception as e:
+            self.res.count("wiring_refused")
+            self.res.hist("wiring_refused_why", type(e).__name__)
+        self.res.count("wiring_ops")
+        return self.check(("wiring", form, len(some)))
+
     def op_save_load(self):
         if getattr(self, "no_more_saves", False):
             return True
@@ -471,6 +502,8 @@ class World:
             return self.op_note_mod()
         if r < 0.93:
             return self.op_legacy_reload()
+        if r < 0.96:
+            return self.op_wiring()
         return self.op_save_load()
 
 
